@@ -1,7 +1,7 @@
 (* C03 — string, run and record views agree; document and text are
    concatenations.  Statements only; proofs in proofs/ViewFacts.v. *)
 From Coq Require Import List NArith.
-From D2P Require Import Str Err Collector Iter Output Package Content ShapeFacts ViewFacts PyVal Source SourceBase SourceViews SourceIter.
+From D2P Require Import Str Err Collector Iter Output Package Content ShapeFacts ViewFacts PyVal Source SourceBase SourceViews SourceIter SourceOutput.
 Import ListNotations.
 
 (* X_runs is get_par_strings of X_pars and X is _join_runs of X_runs, for
@@ -125,3 +125,93 @@ Theorem C03_source_flatten_text : forall t fuel,
   S_flatten_text fuel (enc_rose VStr t) = lift_str (flatten_text t).
 Proof. exact src_flatten_text. Qed.
 Print Assumptions C03_source_flatten_text.
+
+(* TIE TO THE SOURCE TEXT, the views themselves: the attributes of docx_output.DocxContent AS TRANSLATED FROM THE
+   PYTHON SOURCE (_get_pars and the 21 view properties, text) are the model's pars_of / runs_of / plain_of,
+   document_pars / document_runs / document and text, for every archive and option setting - so the theorems
+   above (document = header + body + footer + footnotes + endnotes in all three forms, body = officeDocument,
+   text = the paragraphs joined) speak about the source.  DocxReader.files_of_type is a parameter assumed to
+   return the File objects whose `content` is the collector tree of each part of that type, in path order *)
+Theorem C03_source_get_pars : forall a o ext rd cls,
+  (forall ty, ext rd (VStr ty)
+              = match per_file a o ty with
+                | Ok l => Ok (VList (map (fun c => VObj k_File [(k_content, VList (map (enc_rose (enc_par (o_html o))) c))]) l))
+                | Err e => Err e
+                end) ->
+  forall ty, S_DocxContent_get_pars ext (VObj cls [(k_docx_reader, rd)]) (VStr ty)
+             = lift_rose (enc_par (o_html o)) (pars_of a o ty).
+Proof. exact src_get_pars. Qed.
+Print Assumptions C03_source_get_pars.
+
+Theorem C03_source_named_runs : forall a o ext rd cls,
+  (forall ty, ext rd (VStr ty)
+              = match per_file a o ty with
+                | Ok l => Ok (VList (map (fun c => VObj k_File [(k_content, VList (map (enc_rose (enc_par (o_html o))) c))]) l))
+                | Err e => Err e
+                end) ->
+  let self := VObj cls [(k_docx_reader, rd)] in
+  S_DocxContent_header_runs ext self = lift_rose VStr (runs_of a o s_header)
+  /\ S_DocxContent_footer_runs ext self = lift_rose VStr (runs_of a o s_footer)
+  /\ S_DocxContent_officeDocument_runs ext self = lift_rose VStr (runs_of a o s_officeDocument)
+  /\ S_DocxContent_body_runs ext self = lift_rose VStr (runs_of a o s_officeDocument)
+  /\ S_DocxContent_footnotes_runs ext self = lift_rose VStr (runs_of a o s_footnotes)
+  /\ S_DocxContent_endnotes_runs ext self = lift_rose VStr (runs_of a o s_endnotes).
+Proof. exact src_named_runs. Qed.
+Print Assumptions C03_source_named_runs.
+
+Theorem C03_source_named_plain : forall a o ext rd cls,
+  (forall ty, ext rd (VStr ty)
+              = match per_file a o ty with
+                | Ok l => Ok (VList (map (fun c => VObj k_File [(k_content, VList (map (enc_rose (enc_par (o_html o))) c))]) l))
+                | Err e => Err e
+                end) ->
+  let self := VObj cls [(k_docx_reader, rd)] in
+  S_DocxContent_header ext self = lift_rose VStr (plain_of a o s_header)
+  /\ S_DocxContent_footer ext self = lift_rose VStr (plain_of a o s_footer)
+  /\ S_DocxContent_officeDocument ext self = lift_rose VStr (plain_of a o s_officeDocument)
+  /\ S_DocxContent_body ext self = lift_rose VStr (plain_of a o s_officeDocument)
+  /\ S_DocxContent_footnotes ext self = lift_rose VStr (plain_of a o s_footnotes)
+  /\ S_DocxContent_endnotes ext self = lift_rose VStr (plain_of a o s_endnotes).
+Proof. exact src_named_plain. Qed.
+Print Assumptions C03_source_named_plain.
+
+Theorem C03_source_document_pars : forall a o ext rd cls,
+  (forall ty, ext rd (VStr ty)
+              = match per_file a o ty with
+                | Ok l => Ok (VList (map (fun c => VObj k_File [(k_content, VList (map (enc_rose (enc_par (o_html o))) c))]) l))
+                | Err e => Err e
+                end) ->
+  S_DocxContent_document_pars ext (VObj cls [(k_docx_reader, rd)]) = lift_rose (enc_par (o_html o)) (document_pars a o).
+Proof. exact src_document_pars. Qed.
+Print Assumptions C03_source_document_pars.
+
+Theorem C03_source_document_runs : forall a o ext rd cls,
+  (forall ty, ext rd (VStr ty)
+              = match per_file a o ty with
+                | Ok l => Ok (VList (map (fun c => VObj k_File [(k_content, VList (map (enc_rose (enc_par (o_html o))) c))]) l))
+                | Err e => Err e
+                end) ->
+  S_DocxContent_document_runs ext (VObj cls [(k_docx_reader, rd)]) = lift_rose VStr (document_runs a o).
+Proof. exact src_document_runs. Qed.
+Print Assumptions C03_source_document_runs.
+
+Theorem C03_source_document : forall a o ext rd cls,
+  (forall ty, ext rd (VStr ty)
+              = match per_file a o ty with
+                | Ok l => Ok (VList (map (fun c => VObj k_File [(k_content, VList (map (enc_rose (enc_par (o_html o))) c))]) l))
+                | Err e => Err e
+                end) ->
+  S_DocxContent_document ext (VObj cls [(k_docx_reader, rd)]) = lift_rose VStr (document a o).
+Proof. exact src_document. Qed.
+Print Assumptions C03_source_document.
+
+Theorem C03_source_text : forall a o ext rd cls,
+  (forall ty, ext rd (VStr ty)
+              = match per_file a o ty with
+                | Ok l => Ok (VList (map (fun c => VObj k_File [(k_content, VList (map (enc_rose (enc_par (o_html o))) c))]) l))
+                | Err e => Err e
+                end) ->
+  forall fuel, (5 < fuel)%nat ->
+  S_DocxContent_text fuel ext (VObj cls [(k_docx_reader, rd)]) = lift_str (text a o).
+Proof. exact src_text. Qed.
+Print Assumptions C03_source_text.
